@@ -40,6 +40,11 @@ SWITCHY = [("line", "in_service"), ("line", "in_service"), ("switch", "closed"),
            ("bus", "in_service"), ("load", "in_service"), ("gen", "in_service"), ("sgen", "in_service")]
 
 
+# a default-start Newton-Raphson that needs more than 6 of its 10 iterations is at the edge of its own convergence
+# region: what a different start point does there is a numerical-basin question, not a history question
+WELL_CONDITIONED_ITERS = 6
+
+
 def warm():
     c08.warm()
 
@@ -346,7 +351,7 @@ def _exec_probe(net, op, i, ctx, h):
             iters = _iterations(ref)
             if _is_refusal(e_live) or not had_results:
                 conclusive = False
-            elif nearby and (iters is None or iters <= 8) and isinstance(e_live, Exception):
+            elif nearby and (iters is None or iters <= WELL_CONDITIONED_ITERS) and isinstance(e_live, Exception):
                 sig = f"{base}|init-results-fails-nearby-state|{feature}"
                 detail = (f"live runpp({kw}) raised {o_live}: {e_live!s:.120}; the fresh calculation converges "
                           f"(iterations={iters}); previous converged result is {h.conv_age} switching/small edits old, "
@@ -356,7 +361,7 @@ def _exec_probe(net, op, i, ctx, h):
         else:
             sig = f"{base}|outcome-class-differs|{feature}"
             detail = f"live raised {o_live}: {e_live!s:.160}; fresh copy returned normally"
-    elif init_results and kind == "runpp" and not (nearby and (_iterations(ref) or 0) <= 8):
+    elif init_results and kind == "runpp" and not (nearby and (_iterations(ref) or 0) <= WELL_CONDITIONED_ITERS):
         conclusive = False          # a far-away or unvalidated start may legitimately sit in another basin
     else:
         tabs = _tables_for(kind, ref)
